@@ -308,6 +308,16 @@ func (s *Store) Ite(c, a, b *Term) *Term {
 	if a == b {
 		return a
 	}
+	if c.op == OpNot {
+		return s.Ite(c.a, b, a)
+	}
+	// ite(c, ite(c,x,y), z) = ite(c,x,z);  ite(c, x, ite(c,y,z)) = ite(c,x,z)
+	if a.op == OpIte && a.a == c {
+		return s.Ite(c, a.b, b)
+	}
+	if b.op == OpIte && b.a == c {
+		return s.Ite(c, a, b.c)
+	}
 	if a.w == 0 {
 		if a.IsTrue() && b.IsFalse() {
 			return c
